@@ -1,5 +1,6 @@
 //! Shared generators: a deterministic pool of validator / node keys and committee specifications.
 pub mod certs;
+pub mod wire;
 
 use std::sync::OnceLock;
 
